@@ -105,7 +105,9 @@ def good_len(n):
 def check_responses(case, ctx):
     from sigpyproc.core.filters import MatchedFilter
 
-    x = make_data(case)
+    from vlib.strategies import relayout
+
+    x = relayout(make_data(case), ["C", "strided_view", "reversed_view"][case["seed"] % 3])
     n = case["n"]
     ctxt = {k: case[k] for k in ("n", "kind", "nbins_max", "spacing", "pulse", "pos", "w", "seed")}
     try:
